@@ -7,7 +7,7 @@ IDS=${*:-"C13 C14 C15 C16 C17 C19 C20"}
 cd /repo || exit 2
 if [ -n "$(git status --porcelain --untracked-files=no)" ]; then echo "/repo is dirty"; exit 2; fi
 trap 'git -C /repo checkout -- . ; ' EXIT INT TERM
-mkdir -p /tmp/evalout && cp /verif/known_findings.json /tmp/evalout/ && git apply "$PATCH" || { echo "patch does not apply"; exit 2; }
+mkdir -p /tmp/evalout && cp /verif/known_findings.json /tmp/evalout/ && rm -rf /tmp/evalout/known && cp -r /verif/known /tmp/evalout/known && git apply "$PATCH" || { echo "patch does not apply"; exit 2; }
 for id in $IDS; do
   out=$(VERIF_OUT_DIR=/tmp/evalout /verif/check "$id" --tier quick ${EVAL_ARGS:-} 2>&1); rc=$?
   echo "== $id exit=$rc"
